@@ -186,6 +186,8 @@ type EntrySpec struct {
 	ID       int    `json:"id"`
 	Debit    bool   `json:"debit,omitempty"`
 	BadCheck bool   `json:"badCheck,omitempty"` // wrong check digit (AllowInvalidCheckDigit)
+	Prenote  bool   `json:"prenote,omitempty"`  // prenote code with an amount (AllowInvalidAmounts)
+	CatxOff  int    `json:"catxOff,omitempty"`  // CTX: addenda count of the entry record = addenda + CatxOff (UnequalAddendaCounts)
 }
 
 type BatchSpec struct {
@@ -259,6 +261,9 @@ func buildEntry(b BatchSpec, e EntrySpec, bo *ach.ValidateOpts) *ach.EntryDetail
 	} else {
 		ed.TransactionCode = ach.CheckingCredit
 	}
+	if e.Prenote {
+		ed.TransactionCode++ // 23 / 28: a prenote
+	}
 	ed.SetRDFI("231380104")
 	if e.BadCheck {
 		d, _ := strconv.Atoi(ed.CheckDigit)
@@ -268,8 +273,9 @@ func buildEntry(b BatchSpec, e EntrySpec, bo *ach.ValidateOpts) *ach.EntryDetail
 	ed.Amount = e.Amount
 	ed.IdentificationNumber = fmt.Sprintf("E%07d", e.ID)
 	if b.SEC == ach.CTX {
-		ed.SetCATXAddendaRecords(e.Addenda)
+		ed.SetCATXAddendaRecords(e.Addenda + e.CatxOff) // also sets the indicator to the count
 		ed.SetCATXReceivingCompany(fmt.Sprintf("Receiver %d", e.ID%13))
+		ed.AddendaRecordIndicator = 0
 	} else {
 		ed.IndividualName = fmt.Sprintf("Receiver %d", e.ID%13)
 	}
@@ -602,6 +608,8 @@ func genCase(r *rng.R) Case {
 			unordered := wantUnordered && (st.has("CustomTraceNumbers") || need("CustomTraceNumbers"))
 			badCheck := wantBadCheck && need("AllowInvalidCheckDigit")
 			zero := wantZero && need("AllowZeroEntryAmount")
+			prenote := h.SEC != ach.CTX && r.Chance(1, 10) && need("AllowInvalidAmounts")
+			catxOff := h.SEC == ach.CTX && r.Chance(1, 4) && need("UnequalAddendaCounts")
 			if wantSpecial && need("AllowSpecialCharacters") {
 				h.Name = strings.Replace(h.Name, " ", "™ ", 1)
 			}
@@ -644,6 +652,11 @@ func genCase(r *rng.R) Case {
 				e.BadCheck = badCheck && r.Bool()
 				if zero && r.Chance(1, 2) {
 					e.Amount = 0
+				} else if prenote && r.Chance(1, 2) {
+					e.Prenote = true
+				}
+				if catxOff && r.Chance(2, 3) {
+					e.CatxOff = r.Range(1, 4)
 				}
 				h.Entries = append(h.Entries, e)
 			}
